@@ -12,10 +12,12 @@ RULE = ("scenarios {Disposable, BooleanDisposable, ScheduledDisposable on an Eve
         "schedules with <= b preemptions (yield point = every source line of reactivex/disposable/{disposable,booleandisposable,scheduleddisposable,singleassignmentdisposable}.py and every "
         "lock operation) plus seeded random / PCT schedules; single-thread call histories; distinct = distinct decision list per scenario; "
         "non-trivial = at least one preemptive switch or > 2 context switches happened")
-ASSUMPTIONS = ["line-granular serialisation: interleavings inside one source line are not produced",
+ASSUMPTIONS = ["free-running units: real threads, switch interval 1 us, yields injected at bytecode granularity (sys.monitoring INSTRUCTION) in the files under test; not replayable, a violation carries the recorded event log; the distinct event orders seen are in the evidence sets free_interleavings:*",
+               "line-granular serialisation: interleavings inside one source line are not produced",
                "threading.Lock/RLock/Condition/Event/Thread are replaced by instrumented equivalents while reactivex is imported"]
 REQUIRED = {"decided_runs": {"quick": 500, "thorough": 5000}, "preemptive_switches": {"quick": 300, "thorough": 3000},
-            "dfs_complete_scenarios": {"quick": 4, "thorough": 6}}
+            "dfs_complete_scenarios": {"quick": 4, "thorough": 6},
+            "runs:free": {"quick": 2000, "thorough": 40000}, "free_injected_yields": {"quick": 2000, "thorough": 40000}}
 UNIT_TIMEOUT = {"quick": 240, "thorough": 3000}
 FILES = ("disposable/disposable.py", "disposable/booleandisposable.py", "disposable/scheduleddisposable.py",
          "disposable/singleassignmentdisposable.py")
@@ -60,7 +62,7 @@ def scenario(c: Any, P: dict) -> dict:
             if kind != "scheduled" and not d.is_disposed:
                 viol.append(("C25:%s:is_disposed-false-after-dispose-returned" % kind, {"thread": me()}))
 
-    ts = [D.VThread(target=worker, name="W") for _ in range(nthreads)]
+    ts = [c.Thread(target=worker, name="W") for _ in range(nthreads)]
     for t in ts:
         t.start()
     for t in ts:
@@ -163,6 +165,10 @@ def units(tier: str, seed: int) -> list[dict]:
             us.append({"P": P, "mode": "random", "runs": 2500, "seed": seed})
             us.append({"P": P, "mode": "pct", "runs": 1200, "seed": seed})
     us.append({"mode": "st", "n": 400 if tier == "quick" else 20000, "seed": seed})
+    # free-running tier (real threads, bytecode-granular yield injection): everything that needs no scheduler thread
+    for P in SCEN:
+        if P["kind"] != "scheduled":
+            us.append({"P": P, "mode": "free", "runs": 250 if tier == "quick" else 6000, "seed": seed})
     return us
 
 
@@ -170,12 +176,16 @@ def run_unit(unit: dict, res: UnitResult) -> None:
     if unit["mode"] == "st":
         single_thread_histories(res, unit["seed"], unit["n"])
         return
+    P = unit["P"]
+    name = "%s-%dx%d" % (P["kind"], P["threads"], P["calls"])
+    if unit["mode"] == "free":
+        from ..freerun import explore_free
+        explore_free(res, ID, "free-" + name, scenario, P, seed=unit["seed"], runs=unit["runs"], files=tuple("reactivex/" + f for f in FILES))
+        return
     from .. import dcheck, dsched as D
     D.install(D.repo_file(*FILES))
     if not dcheck.check_install(res):
         return
-    P = unit["P"]
-    name = "%s-%dx%d" % (P["kind"], P["threads"], P["calls"])
     dcheck.explore(res, ID, name, scenario, P, unit["mode"], seed=unit["seed"], runs=unit.get("runs", 0), bound=unit.get("bound", 2),
                    max_runs=unit.get("max_runs", 4000))
 
@@ -183,6 +193,10 @@ def run_unit(unit: dict, res: UnitResult) -> None:
 def replay(rep: dict, res: UnitResult) -> None:
     if rep["scenario"] == "st":
         single_thread_histories(res, rep["params"]["seed"], rep["params"]["i"] + 1)
+        return
+    if rep.get("free"):
+        from ..freerun import explore_free
+        explore_free(res, ID, rep["scenario"], scenario, rep["params"], seed=rep.get("seed", 0), runs=rep.get("runs", 1000), files=tuple("reactivex/" + f for f in FILES))
         return
     from .. import dcheck, dsched as D
     D.install(D.repo_file(*FILES))
